@@ -71,7 +71,7 @@ func verifC21(registry map[uint32]func() bin.Object, sample, n int) {
 
 // VerifC21_mt: every constructor of the MTProto service schema (mt).
 func VerifC21_mt() {
-	n := 12
+	n := 16
 	if verifrt.Tier() == 1 {
 		n = 24
 	}
